@@ -84,6 +84,31 @@ def run(cx, chk):
         chk.floor("C18.R5", "calls scanned in %s" % cfg, n_calls, 800)
         if not any(k.startswith("C18.R5|") for k in chk.violations):
             chk.ob("C18.R5", cfg + ":unchecked", "no unchecked assumption among %d calls" % n_calls)
+    # R6: operations that start from the state a permitted leak-type unwind leaves behind. A node may then be linked but unindexed while
+    # a re-inserted copy of its key is indexed, so "the node the index returns for this node's own key" need not be this node. The
+    # typestate walk is repeated without that identification; what a function unlinks and what it frees must still be the same node.
+    chk.rule("C18.R6", "orphan mode: with the index allowed to return a different node for a node's own key (the state after a leak-type unwind), no function frees a node that is still linked or indexed, or frees one twice")
+    from .lib import nt as ntmod2
+    for cfg, F in cx.cfgs():
+        P2 = ntrun.prims(F)
+        n_paths = bad6 = 0
+        for f in api.roots(F):
+            if ntrun.is_teardown(f):
+                continue
+            for p in cx.paths(cfg, f["path"], models=cx.models_orphan(cfg), tag="orphan"):
+                n_paths += 1
+                w = ntmod2.NT(F, P2, p, f["q"], False).run()
+                for fd in w.findings:
+                    if not (fd["rule"].startswith(("C03.R1", "C04.R1")) and ("Box::from_raw" in fd["msg"] or "freed node" in fd["msg"] or "re-boxed twice" in fd["msg"] or "double free" in fd["msg"])):
+                        continue
+                    bad6 += 1
+                    g = F.fns.get(fd["fn"]) or f
+                    chk.violation("C18.R6", "%s|%s|%s" % (f["q"], g["q"], ntrun.norm(fd["msg"])[:120]),
+                                  "if an earlier unwind left a linked-but-unindexed node whose key was put again, the index returns the copy for that key: %s (reached from %s)" % (fd["msg"], f["q"]),
+                                  g["span"]["file"], fd["ln"], g["q"], ["root " + f["q"]], cfg)
+        chk.floor("C18.R6", "paths walked in orphan mode (%s)" % cfg, n_paths, 500)
+        if not bad6:
+            chk.ob("C18.R6", cfg + ":orphan-mode", "no free of a linked/indexed node on %d paths" % n_paths)
     chk.rule("C18.R2", "drop guards: on every unwinding path out of a user-code site, and on every normal path, a guard frees a node only while it is unlinked and unindexed, and never twice")
     from .lib import nt as ntmod
     for cfg, F in cx.cfgs():
